@@ -1,4 +1,4 @@
-use std::net::SocketAddr;
+use std::net::{IpAddr, SocketAddr};
 
 use http_body_util::Full;
 use hyper::{
@@ -91,7 +91,15 @@ impl HttpListeningExporter {
             },
             |peer_addr| {
                 let remote_ip = peer_addr.ip();
-                addrs.iter().any(|addr| addr.contains(&remote_ip))
+                // A dual-stack listener (e.g. `[::]:9000`) reports IPv4 clients as IPv4-mapped IPv6 addresses
+                // (`::ffff:a.b.c.d`), which no IPv4 entry contains: also match the embedded IPv4 address.
+                let mapped_ip = match remote_ip {
+                    IpAddr::V6(ip) => ip.to_ipv4_mapped().map(IpAddr::V4),
+                    IpAddr::V4(_) => None,
+                };
+                addrs.iter().any(|addr| {
+                    addr.contains(&remote_ip) || mapped_ip.map_or(false, |ip| addr.contains(&ip))
+                })
             },
         )
     }
